@@ -52,6 +52,7 @@ type generator struct {
 	name string // generator+option: the key of findings
 	kind string // "sysl" (input is a model) | "foreign" (input is a spec to import)
 	run  func(m *sysl.Module, in *input) (string, error)
+	slow bool // arr.ai-backed or double-parse generators: fewer repetitions, fewer inputs
 }
 
 func canon(files map[string]string) string {
@@ -69,7 +70,7 @@ func canon(files map[string]string) string {
 
 func parseModel(text string) (*sysl.Module, error) {
 	fs := afero.NewMemMapFs()
-	afero.WriteFile(fs, "/m.sysl", []byte(text), 0o644)
+	afero.WriteFile(fs, "m.sysl", []byte(text), 0o644)
 	return parse.NewParser().ParseFromFs("m.sysl", fs)
 }
 
@@ -180,6 +181,13 @@ func exportGen(mode, format string) func(m *sysl.Module, in *input) (string, err
 			syslApp := m.Apps[appName]
 			switch mode {
 			case "swagger":
+				// the Swagger exporter indexes strings.Split(name, " ")[1] for every endpoint, i.e. it supports
+				// REST endpoints only (a crash on others is C20's matter): hand it the REST part of the app
+				for k, ep := range syslApp.Endpoints {
+					if ep.RestParams == nil {
+						delete(syslApp.Endpoints, k)
+					}
+				}
 				x := exporter.MakeSwaggerExporter(syslApp, quiet)
 				if err := x.GenerateSwagger(); err != nil {
 					out[appName] = "error: " + err.Error()
@@ -241,6 +249,16 @@ func dbDelta(m *sysl.Module, in *input) (string, error) {
 	old, err := parseModel(in.Old)
 	if err != nil {
 		return "", err
+	}
+	// the delta script dereferences GetRelation() of every retained type: tables only (tuples crash it, C16/C20)
+	for _, mod := range []*sysl.Module{old, m} {
+		for _, a := range mod.Apps {
+			for k, t := range a.Types {
+				if t.GetRelation() == nil {
+					delete(a.Types, k)
+				}
+			}
+		}
 	}
 	v := database.MakeDatabaseScriptView("t", quiet)
 	outs := v.ProcessModSysls(old.GetApps(), m.GetApps(), realApps(in), "/o", "postgres")
@@ -314,42 +332,42 @@ func importGen(format string) func(m *sysl.Module, in *input) (string, error) {
 }
 
 var generators = []generator{
-	{"pb:json", "sysl", pbGen("json", false)},
-	{"pb:json-compact", "sysl", pbGen("json", true)},
-	{"pb:textpb", "sysl", pbGen("textpb", false)},
-	{"pb:binary", "sysl", pbGen("pb", false)},
-	{"pb:split-json", "sysl", pbSplit("json")},
-	{"pb:split-textpb", "sysl", pbSplit("textpb")},
-	{"sd:app", "sysl", sdGen(true, false)},
-	{"sd:app-groupby", "sysl", sdGen(true, true)},
-	{"sd:endpoints", "sysl", sdGen(false, false)},
-	{"sd:endpoints-groupby", "sysl", sdGen(false, true)},
-	{"ints:plain", "sysl", intsGen(false, false, "%(epname).png")},
-	{"ints:clustered", "sysl", intsGen(true, false, "%(epname).png")},
-	{"ints:epa", "sysl", intsGen(false, true, "%(epname).png")},
-	{"ints:epa-clustered", "sysl", intsGen(true, true, "%(epname).png")},
-	{"datamodel:project", "sysl", dataGen(false, "%(epname).png")},
-	{"datamodel:direct", "sysl", dataGen(true, "%(epname).png")},
-	{"mermaid:ints-full", "sysl", mermaidGen("ints-full")},
-	{"mermaid:ints-app", "sysl", mermaidGen("ints-app")},
-	{"mermaid:ints-multi", "sysl", mermaidGen("ints-multi")},
-	{"mermaid:data-full", "sysl", mermaidGen("data-full")},
-	{"mermaid:data-type", "sysl", mermaidGen("data-type")},
-	{"mermaid:epa-full", "sysl", mermaidGen("epa-full")},
-	{"mermaid:epa-multi", "sysl", mermaidGen("epa-multi")},
-	{"mermaid:seq", "sysl", mermaidGen("seq")},
-	{"export:swagger-yaml", "sysl", exportGen("swagger", "yaml")},
-	{"export:swagger-json", "sysl", exportGen("swagger", "json")},
-	{"export:openapi3-yaml", "sysl", exportGen("openapi3", "yaml")},
-	{"export:openapi3-json", "sysl", exportGen("openapi3", "json")},
-	{"export:proto", "sysl", transformExport("proto")},
-	{"export:spanner", "sysl", transformExport("spanner")},
-	{"db:create", "sysl", dbCreate},
-	{"db:delta", "sysl-delta", dbDelta},
-	{"relmod", "sysl", relmodGen},
-	{"import:openapi3", "openapi3", importGen("openapi3")},
-	{"import:swagger", "swagger", importGen("swagger")},
-	{"import:xsd", "xsd", importGen("xsd")},
+	{"pb:json", "sysl", pbGen("json", false), false},
+	{"pb:json-compact", "sysl", pbGen("json", true), false},
+	{"pb:textpb", "sysl", pbGen("textpb", false), false},
+	{"pb:binary", "sysl", pbGen("pb", false), false},
+	{"pb:split-json", "sysl", pbSplit("json"), false},
+	{"pb:split-textpb", "sysl", pbSplit("textpb"), false},
+	{"sd:app", "sysl", sdGen(true, false), false},
+	{"sd:app-groupby", "sysl", sdGen(true, true), false},
+	{"sd:endpoints", "sysl", sdGen(false, false), false},
+	{"sd:endpoints-groupby", "sysl", sdGen(false, true), false},
+	{"ints:plain", "sysl", intsGen(false, false, "%(epname).png"), false},
+	{"ints:clustered", "sysl", intsGen(true, false, "%(epname).png"), false},
+	{"ints:epa", "sysl", intsGen(false, true, "%(epname).png"), false},
+	{"ints:epa-clustered", "sysl", intsGen(true, true, "%(epname).png"), false},
+	{"datamodel:project", "sysl", dataGen(false, "%(epname).png"), false},
+	{"datamodel:direct", "sysl", dataGen(true, "%(epname).png"), false},
+	{"mermaid:ints-full", "sysl", mermaidGen("ints-full"), false},
+	{"mermaid:ints-app", "sysl", mermaidGen("ints-app"), false},
+	{"mermaid:ints-multi", "sysl", mermaidGen("ints-multi"), false},
+	{"mermaid:data-full", "sysl", mermaidGen("data-full"), false},
+	{"mermaid:data-type", "sysl", mermaidGen("data-type"), false},
+	{"mermaid:epa-full", "sysl", mermaidGen("epa-full"), false},
+	{"mermaid:epa-multi", "sysl", mermaidGen("epa-multi"), false},
+	{"mermaid:seq", "sysl", mermaidGen("seq"), false},
+	{"export:swagger-yaml", "sysl", exportGen("swagger", "yaml"), false},
+	{"export:swagger-json", "sysl", exportGen("swagger", "json"), false},
+	{"export:openapi3-yaml", "sysl", exportGen("openapi3", "yaml"), false},
+	{"export:openapi3-json", "sysl", exportGen("openapi3", "json"), false},
+	{"export:proto", "sysl", transformExport("proto"), true},
+	{"export:spanner", "sysl", transformExport("spanner"), true},
+	{"db:create", "sysl", dbCreate, false},
+	{"db:delta", "sysl-delta", dbDelta, true},
+	{"relmod", "sysl", relmodGen, true},
+	{"import:openapi3", "openapi3", importGen("openapi3"), false},
+	{"import:swagger", "swagger", importGen("swagger"), false},
+	{"import:xsd", "xsd", importGen("xsd"), false},
 }
 
 func findGen(name string) *generator {
